@@ -270,7 +270,7 @@ func (C13) runOrder(p *Plan, seed int, r *simkit.Run) (*c13Obs, *simkit.Violatio
 			}
 		}
 	}
-	r.Sig(fmt.Sprintf("%s:%d", flavour, len(model)))
+	r.Sig(flavour + ":" + modelString(model))
 	st := c.L.State()
 	obs := &c13Obs{order: order, facts: map[string]string{}}
 	services := []string{"web", "api", "db", "other"}
